@@ -61,6 +61,10 @@ def check(run):
         run.guard("C02.1.leaves", cfg, lambda: rule_leaves(run, F, cfg))
         run.guard("C02.1.leaves", cfg + "/table", lambda: rule_leaf_tables(run, F, cfg))
         run.guard("C02.4.label-boundary", cfg + "/table", lambda: rule_anchoring_table(run, F, cfg))
+        from . import C03 as _C03
+        b3 = run.borrow("C03", why="`|http://`-style patterns are turned into scheme restrictions, not matched as text")
+        run.guard("C02.via.C03.6.scheme-patterns", cfg, lambda: _C03.rule_scheme_patterns(b3, F, cfg))
+        run.guard("C02.3.regex-translation", cfg + "/builder", lambda: rule_regex_builder(run, F, cfg))
         run.guard("C02.2.flag-names", cfg, lambda: rule_flags(run, F, cfg))
         run.guard("C02.3.regex-translation", cfg, lambda: rule_translation(run, F, cfg))
         run.guard("C02.4.label-boundary", cfg, lambda: rule_label_boundary(run, F, cfg))
@@ -564,3 +568,15 @@ def rule_anchoring_table(run, F, cfg):
     run.ob("C02.4.label-boundary", "table", okp and not bad,
            f"is_anchored_by_hostname equals the label-boundary specification on all {n} consistent valuations of its "
            f"comparisons (first difference: {bad[:1]})", site=g.loc(0), config=cfg)
+
+
+def rule_regex_builder(run, F, cfg):
+    """the compiled regexes are byte-oriented: with Unicode classes `\\w` would cover non-ASCII letters and the
+    separator class `[^\\w\\d._%-]` would stop treating them as separators (ABP separators are ASCII-defined)"""
+    cr = F.fn("regex_manager::compile_regex")
+    flags = {}
+    for b, t in cr.calls(r"RegexBuilder::(unicode|case_insensitive|multi_line|dot_matches_new_line)$|RegexSetBuilder::(unicode|case_insensitive)$"):
+        flags.setdefault(strip_generics(t["callee"]).rsplit("::", 2)[-2] + "::" + strip_generics(t["callee"]).rsplit("::", 1)[-1], []).append(cr.expr_operand(t["args"][1]))
+    uni = [v for k, vs in flags.items() if k.endswith("::unicode") for v in vs]
+    run.ob("C02.3.regex-translation", "builders-not-unicode", bool(uni) and all(v == "false" for v in uni),
+           f"every regex builder in compile_regex has unicode(false) ({flags})", site=cr.loc(0), config=cfg)
